@@ -15,6 +15,7 @@ structure ObjSt where
   st : C03.St := C03.init
   sp : C03.SpecSt := {}
   psLoose : List Nat := []   -- bookkeeping of `recipientsObsLoose` (classification of F-C03b only)
+  remLoose : C03.RemSt := {} -- bookkeeping of `reminderObsLoose` (classification of F-C03c only)
 
 structure DSt where
   objs : Array ObjSt := #[]
@@ -168,9 +169,13 @@ def handleOp (d : DSt) (n : Nat) (k : Nat) (kind : OpKind) (ty : NType) (post : 
       let obs : C03.Obs := ⟨kind, e, evs, sup / 32 % 2 == 1, match kind with | .send => some ty | .tick => none⟩
       let (bad, sp') := C03.specStep ob.cfg ob.sp obs
       let loose := C03.recipientsObsLoose ob.psLoose obs
+      let looseRem := C03.reminderObsLoose ob.cfg ob.remLoose obs
       for cl in bad do
         -- F-C03b: the specification rejects, the weaker reading (incident ends only with a processed Recovery) accepts
-        let cls := if cl == .recoveryAckRecipients && loose.1.isNone then " class=recovery_request_dropped_while_disabled" else ""
+        -- F-C03c: likewise for interval 0 (the weaker reading: any other type but Custom re-arms the reminder)
+        let cls := if cl == .recoveryAckRecipients && loose.1.isNone then " class=recovery_request_dropped_while_disabled"
+                   else if cl == .reminderInterval0 && looseRem.1.isNone then " class=interval0_rearmed_by_other_notification_type"
+                   else ""
         let key := cl.name ++ cls
         if !d.caseFailed.contains key then
           IO.println s!"SPECFAIL line={n} case={d.caseNo} clause={cl.name}{cls}"
@@ -196,7 +201,7 @@ def handleOp (d : DSt) (n : Nat) (k : Nat) (kind : OpKind) (ty : NType) (post : 
       let st' : C03.St := if agree then ms else
         { npu := npu, lns := lnsOf lns, next := next, noMore := noMore, number := number, sup := Sup.ofNat sup,
           stash := stash.filterMap fun p => (NType.ofBit? p.1).map fun ty => (ty, p.2 != 0) }
-      return { d with objs := d.objs.set! k { ob with st := st', sp := sp', psLoose := loose.2 } }
+      return { d with objs := d.objs.set! k { ob with st := st', sp := sp', psLoose := loose.2, remLoose := looseRem.2 } }
   | _ => IO.println s!"BADLINE line={n}"; return d
 
 def parseCfg (isHost : Bool) (ws : List String) : Option Cfg :=
